@@ -288,6 +288,10 @@ func stripRefs(pkg []byte, mode int) ([]byte, error) {
 }
 
 func (c *Ctx) checkHistC04(h hist, cases *[]mcase, stripped bool) {
+	c.guard("C04_total", h, func() { c.checkHistC04x(h, cases, stripped) })
+}
+
+func (c *Ctx) checkHistC04x(h hist, cases *[]mcase, stripped bool) {
 	if h.C0 != 1 || h.R0 != 1 {
 		h.C0, h.R0 = 1, 1
 	}
